@@ -206,14 +206,18 @@ var idxPool = []int{0, 0, 1, 1, 2, 3, 5, 7, 12, 19}
 var otherCodes = []core.IssueCode{"my_code", "nonoptional", "", "invalid type", "INVALID_TYPE"}
 
 type synth struct {
-	r    *hx.Rng
-	next int
-	dup  bool
-	odd  bool
+	r     *hx.Rng
+	next  int
+	dup   bool
+	odd   bool
+	blank bool
 }
 
 func (g *synth) msg() string {
 	g.next++
+	if g.blank && g.r.Chance(20) {
+		return "" // the formatters then ask the error's MessageFormatter
+	}
 	if g.dup && g.r.Chance(30) {
 		return "m" + strconv.Itoa(g.r.Intn(g.next))
 	}
@@ -291,11 +295,49 @@ func (g *synth) list() []core.ZodIssue {
 	g.next = 0
 	g.dup = g.r.Chance(25)
 	g.odd = g.r.Chance(25)
+	g.blank = g.r.Chance(15)
 	l := make([]core.ZodIssue, 0, n)
 	for i := 0; i < n; i++ {
 		l = append(l, g.issue(0))
 	}
 	return l
+}
+
+// mapperOutput is mapper(issue) as the library computes it for an issue without a message of its
+// own: the single issue, moved to the root, flattened on an error that has the default formatter.
+func mapperOutput(base *gozod.ZodError, is core.ZodIssue) string {
+	cp := *base
+	is.Path = nil
+	cp.Issues = []core.ZodIssue{is}
+	var out string
+	if p := hx.Safely(func() { out = gozod.FlattenError(&cp).FormErrors[0] }); p != "" {
+		return "<mapper-panicked>"
+	}
+	return out
+}
+
+// filled returns a deep copy of the list in which every empty message is replaced by mapper(issue):
+// that is what the op line (and so the model, whose Issue.msg stands for mapper(issue)) carries.
+func filled(base *gozod.ZodError, list []core.ZodIssue) []core.ZodIssue {
+	if list == nil {
+		return nil
+	}
+	out := make([]core.ZodIssue, len(list))
+	for i, is := range list {
+		if is.Message == "" {
+			is.Message = mapperOutput(base, is)
+		}
+		if is.Errors != nil {
+			brs := make([][]core.ZodIssue, len(is.Errors))
+			for j, br := range is.Errors {
+				brs[j] = filled(base, br)
+			}
+			is.Errors = brs
+		}
+		is.Issues = filled(base, is.Issues)
+		out[i] = is
+	}
+	return out
 }
 
 // ---------------------------------------------------------------- real failing Parse calls
@@ -456,7 +498,7 @@ func run(c hx.Config) error {
 	}
 
 	emit := func(list []core.ZodIssue, ze *gozod.ZodError, how string) {
-		op, ok := encIssues(list)
+		op, ok := encIssues(filled(base, list))
 		if !ok {
 			o.Count("skipped:path-element-not-string-or-index")
 			return
@@ -480,6 +522,7 @@ func run(c hx.Config) error {
 		{mk(core.Custom, []any{"a.b"}, "m1"), mk(core.Custom, []any{"a", "b"}, "m2")},
 		{mk(core.Custom, []any{"0"}, "m1"), mk(core.Custom, []any{0}, "m2")},
 		{mk(core.Custom, []any{7}, "m1")},
+		{mk(core.InvalidType, []any{"a"}, "")},
 	}
 	for _, l := range corpus {
 		emit(l, &gozod.ZodError{Issues: l}, "synth-literal corpus")
